@@ -320,6 +320,8 @@ func describeAval(v aval) string {
 		return d
 	case alo:
 		return fmt.Sprintf("(>=%d)", t.min)
+	case aend:
+		return fmt.Sprintf("len-%d", t.back)
 	case apos:
 		return fmt.Sprintf("pos(atom %d+%d%+d)", t.ai, t.off, t.delta)
 	case nil:
@@ -571,6 +573,8 @@ func (e *absEnv) call(fn *ssa.Function, args []aval, free []aval, depth int) ava
 				idx, iok := e.val(fr, t.Index).(aint)
 				if v, ok := strIndex(e.val(fr, t.X), int64(idx)); ok && iok {
 					fr.regs[t] = v
+				} else if v, ok := strIndexAt(e.val(fr, t.X), e.val(fr, t.Index)); ok {
+					fr.regs[t] = v
 				} else if _, isS := toAtoms(e.val(fr, t.X)); isS {
 					e.abort("string index at a position the abstraction cannot place (%s[%s])", describeAval(e.val(fr, t.X)), describeAval(e.val(fr, t.Index)))
 				} else if x, ok := e.val(fr, t.X).(astruct); ok && iok {
@@ -794,7 +798,7 @@ func (e *absEnv) doCall(fr *absFrame, c *ssa.CallCommon, depth int) aval {
 						min++
 					}
 				}
-				return alo{min}
+				return aend{key: renderAtoms(x.atoms), min: min}
 			case avals:
 				return aint(len(x.cells))
 			case amap:
